@@ -25,7 +25,7 @@ FLAKY = "TestClientRace|TestProgressDisconnect"   # fail under machine load on t
 
 
 def sh(cmd, **kw):
-    return subprocess.run(cmd, shell=True, capture_output=True, text=True, **kw)
+    return subprocess.run(cmd, shell=True, capture_output=True, text=True, errors="replace", **kw)
 
 
 def worktree(path):
